@@ -6,4 +6,5 @@ Extraction Language OCaml.
 Extraction "c07_model.ml" BinInt.Z.add BinNat.N.add BinNat.N.sub
   wm_init wm_initialize wm_quorum
   partition_read stream_read read_event stream_version partition_sequence
+  cr_live_state cr_confirm_reports wm_step
   cr_counts cr_partition_commits cr_stream_commits cr_stream_rev_commits cr_event_at.
